@@ -207,7 +207,7 @@ Definition message_step (fam : list msg) (op : val) : list msg * val :=
   | 3 => (upd_nth fam t (fun m => mkm (m_chunks m) (m_id m) (m_type m) (as_z (nth_val 2 op))), VL [])
   | 4 => (fam ++ [get_msg fam t], VL [])
   | 5 => (fam, match write_to (get_msg fam t) (map dec_wverdict (as_l (nth_val 2 op))) with
-               | Some (n, e, acc) => VL [vnat n; VN e; VB acc]
+               | Some (n, e, acc) => VL [vnat n; VN e; VB acc; VL [VN e; VN 0]]
                | None => vpanic
                end)
   | 6 => match wire (get_msg fam t) with
@@ -266,6 +266,9 @@ Fixpoint holds_message_ops (nul : bool) (prev : list val) (ops outs : list val) 
         | 5 => let n := as_nat (nth_val 0 r) in
                let e := as_n (nth_val 1 r) in
                let acc := as_b (nth_val 2 r) in
+               (* what the writer saw: the first error it returned (0: none) is what WriteTo returned, and it was not
+                  called again after it *)
+               (as_n (nth_val 0 (nth_val 3 r)) =? e) && (as_n (nth_val 1 (nth_val 3 r)) =? 0) &&
                (n =? length acc)%nat && is_prefix_b acc (as_b wt) &&
                (if e =? 0 then bytes_eqb acc (as_b wt)
                 else existsb (fun v => match v with VL [_; e'] => as_n e' =? e | _ => false end) (as_l (nth_val 2 op)))
